@@ -644,16 +644,17 @@ func checkConc(sc scen.Conc, run *concRun) []scen.Finding {
 		for tok, m := range mult {
 			f := first[tok]
 			if ac[tok] < m && f.span.E < q.Span.S && !mayErase(f.span) {
-				add("conc:lost:"+scen.TokKind(tok), fmt.Sprintf("%s %v: %s was recorded during %v, no reset intervened, but it is reported %d of %d time(s)", q.Name, q.Span, tok, f.span, ac[tok], m))
+				add("conc:lost:"+sc.Tree.Where(f.Leaf)+":"+side(f.Rec), fmt.Sprintf("%s %v: %s was recorded during %v, no reset intervened, but it is reported %d of %d time(s)", q.Name, q.Span, tok, f.span, ac[tok], m))
 			}
 		}
 		// pingback
 		lo, hi := 0, 0
-		apiSight, erasedSight, where := false, false, ""
+		apiSight, erasedSight, where, whereUnseen := false, false, "", ""
 		for _, l := range sc.Tree.Leaves() {
 			if l.Kind != scen.KPingback {
 				continue
 			}
+			whereUnseen = sc.Tree.Where(l.ID)
 			must, may := false, false
 			for _, f := range recs {
 				if f.Kind != scen.KPingback || f.Leaf != l.ID {
@@ -690,7 +691,7 @@ func checkConc(sc scen.Conc, run *concRun) []scen.Finding {
 		case a < lo && erasedSight:
 			add("stale_after_reset:"+where+":request", fmt.Sprintf("%s: a pingback verifier still counts as satisfied after a reset", q.Name))
 		case a < lo:
-			add("conc:lost:pingback", fmt.Sprintf("%s %v: %d 'pingback never occurred' error(s), at least %d verifier(s) cannot have seen their URL", q.Name, q.Span, a, lo))
+			add("conc:lost:"+whereUnseen+":request", fmt.Sprintf("%s %v: %d 'pingback never occurred' error(s), at least %d verifier(s) cannot have seen their URL", q.Name, q.Span, a, lo))
 		}
 	}
 	return out
